@@ -110,3 +110,68 @@ func zzH_C17_closingReader() {
 	d.ZZExpect(m.Keys, m.Vals, "ClosingReader")
 	zz.Assert(m.Closed == (d.Err != nil), "the input is closed exactly when a read returned an error or EOF")
 }
+
+// zzH_C17_scanner: a scanner yields each row exactly once in order, ends with
+// a nil error, and rejects destinations of the wrong arity or type with an
+// error without consuming a row. Scanv delivers the same rows in batches.
+func zzH_C17_scanner() {
+	old := defaultChunksize
+	defaultChunksize = 2
+	defer func() { defaultChunksize = old }()
+	n := zz.AnyIntIn("rows", 0, 3)
+	m := ZZNewModel("in", n)
+	m.MaxEmpty = 1
+	ctx := context.Background()
+	mode := zz.AnyIntIn("mode", 0, 3)
+	sc := NewScanner(frame.Slices(m.Keys, m.Vals), m)
+	var k, v int64
+	switch mode {
+	case 0: // plain scan
+		i := 0
+		for sc.Scan(ctx, &k, &v) {
+			zz.Assert(i < n, "no more rows than the stream holds")
+			if i >= n {
+				return
+			}
+			zz.Assert(zz.And(k == m.Keys[i], v == m.Vals[i]), "Scan yields the rows once each, in order")
+			i++
+		}
+		zz.Assert(i == n, "Scan yields every row")
+		zz.Assert(sc.Err() == nil, "scanning ends with a nil error")
+		zz.Assert(!sc.Scan(ctx, &k, &v), "Scan stays false after the end")
+		if n >= 2 {
+			zz.Reach("scanned 2+ rows")
+		}
+	case 1: // wrong arity
+		zz.Assert(!sc.Scan(ctx, &k), "wrong arity is rejected")
+		zz.Assert(sc.Err() != nil, "wrong arity is reported as an error")
+		zz.Assert(m.Reads == 0, "no row is consumed by a rejected Scan")
+		zz.Reach("arity rejected")
+	case 2: // wrong type
+		var s string
+		zz.Assert(!sc.Scan(ctx, &k, &s), "wrong column type is rejected")
+		zz.Assert(sc.Err() != nil, "wrong column type is reported as an error")
+		zz.Assert(m.Reads == 0, "no row is consumed by a rejected Scan")
+		zz.Reach("type rejected")
+	case 3: // Scanv
+		var gk, gv []int64
+		for c := 0; c < 4; c++ {
+			bk, bv := make([]int64, 2), make([]int64, 2)
+			got, more := sc.Scanv(ctx, bk, bv)
+			gk, gv = append(gk, bk[:got]...), append(gv, bv[:got]...)
+			if !more {
+				break
+			}
+		}
+		zz.Assert(len(gk) == n, "Scanv yields every row")
+		ok := true
+		for i := range gk {
+			if i < n {
+				ok = zz.And(ok, zz.And(gk[i] == m.Keys[i], gv[i] == m.Vals[i]))
+			}
+		}
+		zz.Assert(ok, "Scanv yields the rows once each, in order")
+		zz.Assert(sc.Err() == nil, "scanning ends with a nil error")
+		zz.Reach("scanv")
+	}
+}
